@@ -216,21 +216,35 @@ def predict(prog, case, model, script):
         return conns[n]
     for n in spec.nicks:
         if model.get(f'reg_{n}', True): conn_of(n)
+    def drain():
+        # every connection task forwards its queue to its socket, one event per loop iteration
+        progress = True
+        while progress:
+            progress = False
+            for n, c in conns.items():
+                if c.get('dead'): continue
+                guard = 0
+                while (c['ch'].q or c['src'].items) and guard < 200:
+                    guard += 1
+                    before = len(c['src'].written)
+                    try:
+                        r = w.run_to_completion(w.start_process(c))
+                    except Panic as e:
+                        outcomes.append('panic: ' + str(e)); c['dead'] = True
+                        socks[n].extend(list(s.data) for s in c['src'].written[before:])
+                        socks[n].append(None)
+                        break
+                    socks[n].extend(list(s.data) for s in c['src'].written[before:])
+                    progress = True
+                    if r == 'PENDING': break
     for client, line in script:
         c = conn_of(client)
-        before = len(c['src'].written)
-        qb = {n: len(w.queues[n].log) for n in w.queues}
-        try:
-            r = w.process_line(c, line)
-            outcomes.append('ok' if r != 'PENDING' else 'stall')
-        except Panic as e:
-            outcomes.append('panic: ' + str(e))
-            socks[client].append(None)      # EOF
-            break
-        socks[client].extend(list(s.data) for s in c['src'].written[before:])
-        for n, ch in w.queues.items():
-            new = ch.log[qb.get(n, 0):]
-            if n in socks: socks[n].extend(list(s.data) for s in new)
+        if c.get('dead'): break
+        c['src'].items.append(('line', mkstring(line)))
+        n0 = len(outcomes)
+        drain()
+        if len(outcomes) == n0: outcomes.append('ok')
+        if c.get('dead'): break
     return socks, outcomes
 
 def line_regex(buf):
